@@ -19,7 +19,7 @@ def main():
         for src, fn, flags, exp in CANARIES:
             gb = os.path.join(tmp, "c.gb")
             subprocess.run(["goto-cc", os.path.join(VERIF, src), "-o", gb], check=True, capture_output=True)
-            base = ["cbmc", gb, "--function", fn, "--sat-solver", "cadical", "--drop-unused-functions"]
+            base = ["cbmc", gb, "--function", fn, "--sat-solver", "cadical", "--drop-unused-functions", "--max-field-sensitivity-array-size", "256"]
             if "--partial-loops" not in flags:
                 base += ["--unwind", "20", "--unwinding-assertions"]
             out = subprocess.run(base + flags, capture_output=True, text=True).stdout
